@@ -55,9 +55,21 @@ pub struct St {
     msg: Option<MsgOp>,
     pk: Option<PkOp>,
     label: Option<Scheme>,
-    /// key-sum with signature-sum (valid for Basic / Pop)
-    sum_both: bool,
+    /// key-sum with signature-sum (valid for Basic / Pop): 0 = single signer, else an index into `MULTI`
+    sum_both: u8,
 }
+
+/// signer lists (0 = the base key, 1 = the other key) for the accumulated key and for the accumulated signature;
+/// the key is accumulated by the library (`MultiPublicKey::from_public_keys`), the reference sums the same list itself
+const MULTI: [(&[usize], &[usize]); 6] = [
+    (&[0], &[0]),
+    (&[0, 1], &[0, 1]),
+    (&[0, 1, 0], &[0, 1, 0]),
+    (&[0, 0], &[0, 0]),
+    (&[1, 0, 0], &[0, 0, 1]),
+    // a repeated signer counted once in the signature only: must be rejected
+    (&[0, 1, 0], &[0, 1]),
+];
 
 impl St {
     fn devs(&self) -> usize {
@@ -65,7 +77,7 @@ impl St {
             + self.msg.is_some() as usize
             + self.pk.is_some() as usize
             + self.label.is_some() as usize
-            + self.sum_both as usize
+            + (self.sum_both != 0) as usize
     }
 }
 
@@ -75,7 +87,7 @@ pub enum Act {
     Msg(MsgOp),
     Pk(PkOp),
     Label(Scheme),
-    SumBoth,
+    SumBoth(u8),
 }
 
 pub struct M02<C: Suite> {
@@ -169,7 +181,7 @@ impl<C: Suite> Model for M02<C> {
                         msg: None,
                         pk: None,
                         label: None,
-                        sum_both: false,
+                        sum_both: 0,
                     });
                 }
             }
@@ -208,13 +220,15 @@ impl<C: Suite> Model for M02<C> {
                         a.push(Act::Label(l));
                     }
                 }
-                a.push(Act::SumBoth);
+                for i in 1..MULTI.len() as u8 {
+                    a.push(Act::SumBoth(i));
+                }
             }
             1 => {
                 // second deviation: restricted operator sets, different component, canonical order
                 let in_r = st.sig.map(|o| R_SIG.contains(&o)).unwrap_or(false)
                     || st.msg.map(|o| self.restricted_msg(st.m).contains(&o)).unwrap_or(false);
-                if !in_r || st.sum_both || st.label.is_some() {
+                if !in_r || st.sum_both != 0 || st.label.is_some() {
                     return a;
                 }
                 if st.sig.is_some() {
@@ -239,7 +253,7 @@ impl<C: Suite> Model for M02<C> {
             Act::Msg(o) => n.msg = Some(*o),
             Act::Pk(o) => n.pk = Some(*o),
             Act::Label(l) => n.label = Some(*l),
-            Act::SumBoth => n.sum_both = true,
+            Act::SumBoth(i) => n.sum_both = *i,
         }
         Some(n)
     }
@@ -394,11 +408,26 @@ impl<C: Suite> Model for M02<C> {
             label = l;
             expect_accept = false;
         }
-        if st.sum_both {
-            opclass += "sum_both";
-            pk += sk2.public_key().0;
-            sig += *sk2.sign(lscheme, msg0).unwrap().as_raw_value();
-            if st.s == Scheme::Aug {
+        let mut ref_pk_override = None;
+        if st.sum_both != 0 {
+            let (kl, sl) = MULTI[st.sum_both as usize];
+            opclass += &format!("sum_both[keys={:?},sigs={:?}]", kl, sl);
+            let pick = |i: usize| if i == 0 { sk } else { sk2 };
+            let keys: Vec<PublicKey<C>> = kl.iter().map(|i| pick(*i).public_key()).collect();
+            pk = MultiPublicKey::<C>::from_public_keys(&keys).0;
+            let mut rk = <<C::R as rf::RefSuite>::Pk as bls12_381_plus::group::Group>::identity();
+            for k in &keys {
+                rk += <C::R as rf::RefSuite>::pk_from(&Vec::<u8>::from(k)).expect("honest key decodes in the reference");
+            }
+            ref_pk_override = Some(rf::enc(&rk));
+            for i in &sl[1..] {
+                sig += *pick(*i).sign(lscheme, msg0).unwrap().as_raw_value();
+            }
+            let mut a = kl.to_vec();
+            let mut b = sl.to_vec();
+            a.sort();
+            b.sort();
+            if st.s == Scheme::Aug || a != b {
                 expect_accept = false;
             }
         }
@@ -408,7 +437,7 @@ impl<C: Suite> Model for M02<C> {
         o.nontrivial = true;
         let devs = st.devs();
         // --- independent reference on the same bytes ---
-        let pkb = pt(&pk);
+        let pkb = ref_pk_override.unwrap_or_else(|| pt(&pk));
         let sgb = pt(&sig);
         let r = rf::verify::<C::R>(&pkb, label, &msg, &sgb);
         // --- the three library entry points ---
